@@ -36,6 +36,7 @@ type Engine struct {
 	preserved     []Preserved
 	readers       []ReadersClause
 	writers       []WritersClause
+	callers       []CallersClause
 	internal      map[string][]string // function -> packages that may call it
 	fpCache       map[string]map[string]bool
 	orderSkip     map[string]string
